@@ -25,8 +25,11 @@ def strategy_and_weights(ctx):
     cases = []
     for m in CountingStrategy:
         if m.name not in STRATS: continue
-        fl = CountingStrategyFlags(m)
-        preds = (m.ambiguous(), m.inconsistent_minor(), m.inconsistent(), m.no_inconsistent())
+        try:
+            fl = CountingStrategyFlags(m)
+            preds = (m.ambiguous(), m.inconsistent_minor(), m.inconsistent(), m.no_inconsistent())
+        except Exception as e:
+            ctx.violation(None, "CountingStrategy predicates / CountingStrategyFlags raise %s" % type(e).__name__, {"strategy": m.name, "error": impl_error(e)}); continue
         cases.append(("(%s, (%s,%s,%s,%s), (%s,%s,%s))" % ((STRATS[m.name],) + tuple(cbool(x) for x in preds) + tuple(cbool(x) for x in (fl.use_ambiguous, fl.use_inconsistent_minor, fl.use_inconsistent))),
                       {"strategy": m.name, "predicates(ambiguous,inconsistent_minor,inconsistent,no_inconsistent)": preds}))
     pre = PRE + "Definition check := check_strategy.\nDefinition prop := check_strategy.\n"
@@ -36,7 +39,9 @@ def strategy_and_weights(ctx):
 
     cases = []
     for s in STRATS:
-        rwc = ReadWeightCounter(s)
+        try: rwc = ReadWeightCounter(s)
+        except Exception as e:
+            ctx.violation(None, "ReadWeightCounter(%r) raises %s" % (s, type(e).__name__), {"strategy": s, "error": impl_error(e)}); continue
         for t in ATYPES:
             if t != "ambiguous" and t not in INCONS: continue
             for k in range(0, 13):
@@ -45,8 +50,9 @@ def strategy_and_weights(ctx):
                     out = "(Some %s)" % cq(exact(v)); pv = str(exact(v))
                 except ZeroDivisionError:
                     out = "None"; pv = "ZeroDivisionError"
+                except Exception as e:
+                    ctx.violation(None, "ReadWeightCounter raises %s" % type(e).__name__, {"strategy": s, "type": t, "feature_count": k, "error": impl_error(e)}); continue
                 cases.append(("(%s, %s, %s, %s)" % (STRATS[s], ATYPES[t], cz(k), out), {"strategy": s, "type": t, "feature_count": k, "impl": pv}))
-    pre = PRE + "Definition check := check_weight.\nDefinition prop := check_weight.\n"
     pre = PRE + "Definition check := check_weight.\nDefinition prop := prop_weight.\n"
     mism, viol = ctx.corr("read_weights", pre, cases, nontrivial=lambda o: o["impl"] not in ("0", "ZeroDivisionError"))
     ctx.corr_report("read_weights", mism, viol, what="ReadWeightCounter.process_ambiguous/process_inconsistent differ from the documented weight")
@@ -77,9 +83,7 @@ def unit_ungrouped(ctx, quick):
             try:
                 res = run_real(case, False, d)
             except Exception as e:
-                ctx.violation(None, "counter raises %s on well-formed input" % type(e).__name__, {"case": case, "error": repr(e)}); continue
-            finally:
-                pass
+                ctx.violation(None, "counter raises %s on well-formed input" % type(e).__name__, {"case": case, "error": impl_error(e)}); continue
             if res["leftover"]:
                 ctx.violation(None, "merge_counts left per-chromosome files behind", {"case": case, "files": res["leftover"]})
             shutil.rmtree(d, ignore_errors=True)
@@ -122,12 +126,15 @@ def unit_raises(ctx, quick):
             fi, gi = interners(case, extra_groups=["zz"])
             create = create_gene_counter if lv == "gene" else create_transcript_counter
             d = tempfile.mkdtemp(dir=work)
-            c = create(os.path.join(d, "x"), s, read_groups=list(case["chrs"][0]["groups"]))
             raised = None
             try:
+                c = create(os.path.join(d, "x"), s, read_groups=list(case["chrs"][0]["groups"]))
                 for ev in evs: apply_event(c, ev)
             except (KeyError, IndexError, ZeroDivisionError) as e:
                 raised = type(e).__name__
+            except Exception as e:
+                ctx.violation(None, "counter raises %s (none of the modelled KeyError / IndexError / ZeroDivisionError)" % type(e).__name__, {"case": case, "error": impl_error(e)})
+                shutil.rmtree(d, ignore_errors=True); continue
             shutil.rmtree(d, ignore_errors=True)
             cases.append(("(%s, %s)" % (ccase(case, fi, gi), cbool(raised is not None)), {"case": case, "raised": raised}))
     finally:
@@ -143,66 +150,111 @@ def run_jobs(jobs, nworkers=4):
     import pipeline as P
     from concurrent.futures import ThreadPoolExecutor
     def one(j):
-        rc, log = P.run_isoquant(j["out"], j["args"], hashseed=j.get("hashseed", "0"))
+        try:
+            rc, log = P.run_isoquant(j["out"], j["args"], hashseed=j.get("hashseed", "0"), timeout=j.get("timeout", 900))
+        except Exception as e:                                     # e.g. the run does not terminate
+            rc, log = -1, "%s: %s" % (type(e).__name__, str(e)[-1500:])
         j["rc"] = rc; j["log"] = log[-3000:]
         return j
     with ThreadPoolExecutor(nworkers) as ex: return list(ex.map(one, jobs))
 
 
+def run_cases(ctx, j, root, gtf_cache):
+    """cases of one finished run: (count/TPM table cases, per-read cases, grouped table cases)"""
+    import pipeline as P
+    if j["gtf"] not in gtf_cache: gtf_cache[j["gtf"]] = P.read_gtf(j["gtf"])
+    ref_tr, ref_genes = gtf_cache[j["gtf"]]
+    rep = {"run": j["name"], "args": [a.replace(root, "<scratch>") for a in j["args"]], "unmapped_records_per_bam": j["unmapped"]}
+    cases = []; rcases = []
+    recs = parse_records(j["out"], "S", ref_tr)
+    unaligned = count_unmapped(j["bams"])
+    model_tr, _ = P.read_gtf(os.path.join(j["out"], "S", "S.transcript_models.gtf"))
+    chr_of = {}
+    for r in recs: chr_of.setdefault(r["read_id"], r["chr"])
+    evs = [record_event(r) for r in recs]
+    tables = [("gene", j["gq"], evs, list(ref_genes), True, "S.gene_counts.tsv", "S.gene_tpm.tsv"),
+              ("transcript", j["tq"], evs, list(ref_tr), True, "S.transcript_counts.tsv", "S.transcript_tpm.tsv"),
+              ("transcript", j["tq"], model_events(j["out"], "S", model_tr, chr_of), [], False, "S.transcript_model_counts.tsv", "S.transcript_model_tpm.tsv")]
+    for level, strat, events, complete, zeroes, cf, tf in tables:
+        case = file_case(strat, level, events, complete, zeroes, j["norm"], unaligned)
+        fi, gi = interners(case)
+        try:
+            obs, py = obs_u_files(os.path.join(j["out"], "S", cf), os.path.join(j["out"], "S", tf), fi)
+        except KeyError as e:
+            ctx.violation(None, "%s lists a feature that is neither annotated nor reported" % cf, dict(rep, feature=str(e))); continue
+        cases.append(("(%s, %s)" % (ccase(case, fi, gi), obs), dict(rep, table=cf, strategy=strat, normalization=j["norm"], unmapped_records_in_the_bam_files=unaligned,
+                                                                      rows=[(f, [str(x) for x in v]) for f, v in py["rows"]][:400], stats_lines=py["stats"])))
+    # every read with all its records: total contribution to the gene and to the transcript table
+    byread = {}
+    for r in recs: byread.setdefault(r["read_id"], []).append(r)
+    for rid, rs in byread.items():
+        for level, strat in (("gene", j["gq"]), ("transcript", j["tq"])):
+            case = file_case(strat, level, [record_event(r) for r in rs], [], True, "simple", 0); fi, gi = interners(case)
+            rcases.append(("(%s, %s, %s)" % (STRATS[strat], "GeneLevel" if level == "gene" else "TranscriptLevel", clist(case["chrs"][0]["events"], lambda e: cevent(e, fi, gi))),
+                           {"run": j["name"], "read": rid, "level": level, "strategy": strat, "records": [dict(chr=r["chr"], type=r["type"], gene_assignment=r["gtype"], features=r["matches"]) for r in rs]}))
+    gcases = grouped_cases(ctx, j, rep, recs, ref_tr, ref_genes, model_tr)[0] if j.get("group_of") else []
+    return cases, rcases, gcases
+
+
 def pipeline(ctx, quick):
     """whole runs: every cell of the gene / transcript / transcript-model count tables, the __ lines and the TPM tables recomputed from read_assignments.tsv,
-       corrected_reads.bed and transcript_model_reads.tsv"""
-    import pipeline as P, pysam
+       corrected_reads.bed and transcript_model_reads.tsv; the __not_aligned line against the unmapped records of ALL BAM files of the experiment"""
+    import pipeline as P, pysam, zlib, traceback
     root = P.scratch("iqv_c02p_")
     try:
         data = os.path.join(root, "data"); b = P.bundled(data)
         strategies = list(STRATS); jobs = []
         common = ["--complete_genedb", "--data_type", "nanopore", "-p", "S"]
+        blabel = os.path.splitext(os.path.basename(b["bam"]))[0]
         for i, s in enumerate(strategies):
-            jobs.append(dict(name="bundled/%s" % s, tq=s, gq=strategies[(i + 2) % 5], norm=("simple", "usable_reads")[i % 2], gtf=b["gtf"], bam=b["bam"], out=os.path.join(root, "b%d" % i),
-                             args=["--bam", b["bam"], "--reference", b["fasta"], "--genedb", b["gtf"]] + common))
+            grp = i % 2 == 1          # every second run also writes grouped tables (--read_group file_name on one file: every read belongs to the file's label)
+            jobs.append(dict(name="bundled/%s%s" % (s, "/read_group=file_name" if grp else ""), tq=s, gq=strategies[(i + 2) % 5], norm=("simple", "usable_reads")[i % 2], gtf=b["gtf"], bams=[b["bam"]],
+                             out=os.path.join(root, "b%d" % i), group_of=(lambda n: blabel) if grp else None, fmt="both",
+                             args=["--bam", b["bam"], "--reference", b["fasta"], "--genedb", b["gtf"]] + common + (["--read_group", "file_name"] if grp else [])))
         worlds = [5] + ([] if quick else [100 + ctx.seed, 200 + ctx.seed])
         for wi, ws in enumerate(worlds):
             wd = os.path.join(root, "w%d" % wi); w = world_with_multilocus(ws); paths = write_world(w, wd, unmapped=4 if wi % 2 == 0 else 0)
             for i, s in enumerate(strategies if not quick else ["unique_only", "all"]):
-                jobs.append(dict(name="synthetic%d/%s" % (ws, s), tq=s, gq=s, norm=("usable_reads", "simple")[i % 2], gtf=os.path.join(wd, "annotation.gtf"), bam=paths[0],
+                jobs.append(dict(name="synthetic%d/%s" % (ws, s), tq=s, gq=s, norm=("usable_reads", "simple")[i % 2], gtf=os.path.join(wd, "annotation.gtf"), bams=[paths[0]],
                                  out=os.path.join(root, "w%d_%d" % (wi, i)), args=["--bam", paths[0], "--reference", os.path.join(wd, "genome.fa"), "--genedb", os.path.join(wd, "annotation.gtf"), "--threads", "2"] + common))
-        for j in jobs: j["args"] += ["--transcript_quantification", j["tq"], "--gene_quantification", j["gq"], "--normalization_method", j["norm"]]
+        # one experiment made of several BAM files, unmapped records in the first / middle / last file
+        mworlds = [(6, (4, 2, 0), "with_ambiguous", "unique_only")] + ([] if quick else [(300 + ctx.seed, (3, 0), "all", "unique_inconsistent"), (400 + ctx.seed, (0, 1, 5), "unique_only", "with_ambiguous")])
+        for mi, (ws, um, tq, gq) in enumerate(mworlds):
+            wd = os.path.join(root, "m%d" % mi); w = world_with_multilocus(ws); mpaths = write_world(w, wd, unmapped=um, n_bams=len(um))
+            jobs.append(dict(name="synthetic%d/%d-bam-files/unmapped%s" % (ws, len(um), list(um)), tq=tq, gq=gq, norm="simple", gtf=os.path.join(wd, "annotation.gtf"), bams=mpaths, out=os.path.join(root, "m%d_o" % mi),
+                             args=["--bam"] + mpaths + ["--reference", os.path.join(wd, "genome.fa"), "--genedb", os.path.join(wd, "annotation.gtf"), "--threads", "2"] + common))
+        # the bundled alignments split into two files by read name, unmapped records in both; --read_group file_name: grouped tables with two groups
+        sp = [os.path.join(data, "libA.bam"), os.path.join(data, "second.lib.bam")]; file_of = {}
+        def split(a, i):
+            file_of[a.query_name] = zlib.crc32(a.query_name.encode()) % 2
+            return file_of[a.query_name], a
+        rewrite_bam(b["bam"], sp, split); add_unmapped(sp[0], 3, "unmapped_A"); add_unmapped(sp[1], 2, "unmapped_B")
+        slabels = [os.path.splitext(os.path.basename(x))[0] for x in sp]
+        jobs.append(dict(name="bundled/2-bam-files/unmapped[3, 2]/read_group=file_name", tq="unique_only", gq="all", norm="usable_reads", gtf=b["gtf"], bams=sp, out=os.path.join(root, "s0"),
+                         group_of=lambda n: slabels[file_of[n]], fmt="both",
+                         args=["--bam"] + sp + ["--reference", b["fasta"], "--genedb", b["gtf"], "--read_group", "file_name"] + common))
+        for j in jobs:
+            j["args"] += ["--transcript_quantification", j["tq"], "--gene_quantification", j["gq"], "--normalization_method", j["norm"]]
+            j["unmapped"] = [count_unmapped([p]) for p in j["bams"]]
         run_jobs(jobs)
         ctx.cov["pipeline_runs"] += len(jobs)
-        cases = []; rcases = []
+        cases = []; rcases = []; gcases = []
         gtf_cache = {}
         for j in jobs:
+            rep = {"run": j["name"], "args": [a.replace(root, "<scratch>") for a in j["args"]], "unmapped_records_per_bam": j["unmapped"]}
             if j["rc"] != 0:
-                ctx.violation(None, "IsoQuant run failed (exit %d)" % j["rc"], {"run": j["name"], "args": [a.replace(root, "<scratch>") for a in j["args"]], "log": j["log"][-1500:]}); continue
-            if j["gtf"] not in gtf_cache: gtf_cache[j["gtf"]] = P.read_gtf(j["gtf"])
-            ref_tr, ref_genes = gtf_cache[j["gtf"]]
-            recs = parse_records(j["out"], "S", ref_tr)
-            unaligned = pysam.AlignmentFile(j["bam"], "rb").unmapped
-            model_tr, _ = P.read_gtf(os.path.join(j["out"], "S", "S.transcript_models.gtf"))
-            chr_of = {}
-            for r in recs: chr_of.setdefault(r["read_id"], r["chr"])
-            evs = [record_event(r) for r in recs]
-            tables = [("gene", j["gq"], evs, list(ref_genes), True, "S.gene_counts.tsv", "S.gene_tpm.tsv"),
-                      ("transcript", j["tq"], evs, list(ref_tr), True, "S.transcript_counts.tsv", "S.transcript_tpm.tsv"),
-                      ("transcript", j["tq"], model_events(j["out"], "S", model_tr, chr_of), [], False, "S.transcript_model_counts.tsv", "S.transcript_model_tpm.tsv")]
-            for level, strat, events, complete, zeroes, cf, tf in tables:
-                case = file_case(strat, level, events, complete, zeroes, j["norm"], unaligned)
-                fi, gi = interners(case)
-                obs, py = obs_u_files(os.path.join(j["out"], "S", cf), os.path.join(j["out"], "S", tf), fi)
-                cases.append(("(%s, %s)" % (ccase(case, fi, gi), obs), {"run": j["name"], "table": cf, "strategy": strat, "normalization": j["norm"], "unmapped_in_bam": unaligned,
-                                                                          "rows": [(f, [str(x) for x in v]) for f, v in py["rows"]][:400], "stats_lines": py["stats"]}))
-            # every read with all its records: total contribution to the gene and to the transcript table
-            byread = {}
-            for r in recs: byread.setdefault(r["read_id"], []).append(r)
-            for rid, rs in byread.items():
-                for level, strat in (("gene", j["gq"]), ("transcript", j["tq"])):
-                    case = file_case(strat, level, [record_event(r) for r in rs], [], True, "simple", 0); fi, gi = interners(case)
-                    rcases.append(("(%s, %s, %s)" % (STRATS[strat], "GeneLevel" if level == "gene" else "TranscriptLevel", clist(case["chrs"][0]["events"], lambda e: cevent(e, fi, gi))),
-                                   {"run": j["name"], "read": rid, "level": level, "strategy": strat, "records": [dict(chr=r["chr"], type=r["type"], gene_assignment=r["gtype"], features=r["matches"]) for r in rs]}))
+                ctx.violation(None, "IsoQuant run failed (exit %d)" % j["rc"], dict(rep, log=j["log"][-1500:])); continue
+            try:
+                c1, c2, c3 = run_cases(ctx, j, root, gtf_cache)
+            except Exception:
+                ctx.violation(None, "the output files of a finished run are missing or cannot be parsed", dict(rep, error=traceback.format_exc()[-1500:], files=sorted(os.listdir(os.path.join(j["out"], "S"))) if os.path.isdir(os.path.join(j["out"], "S")) else None)); continue
+            cases += c1; rcases += c2; gcases += c3
         pre = PRE + "Definition check := check_u_files.\nDefinition prop := prop_u.\n"
         mism, viol = ctx.corr("pipeline_count_tables", pre, cases, shard=2, nontrivial=lambda o: True, timeout=900)
         ctx.corr_report("pipeline_count_tables", mism, viol, what="a count/TPM table or a __ line of a whole run differs from the documented weighting of the reported read assignments")
+        pre = PRE + "Definition check := check_g_files.\nDefinition prop := prop_g.\n"
+        mism, viol = ctx.corr("pipeline_grouped_count_tables", pre, gcases, shard=2, nontrivial=lambda o: True, timeout=900)
+        ctx.corr_report("pipeline_grouped_count_tables", mism, viol, what="a grouped count table of a whole run differs from the documented weighting (under the strategy given for that table) of the reported read assignments")
         pre = PRE + "Definition check (c:strategy * level * list event) := true.\nDefinition prop := prop_read_total.\n"
         mism, viol = ctx.corr("pipeline_read_contribution", pre, rcases, shard=400, nontrivial=lambda o: len(o["records"]) > 1)
         def key(o):
@@ -211,10 +263,14 @@ def pipeline(ctx, quick):
             nf = lambda r: len(set(m[1] if lv == "gene" else m[0] for m in r["features"]))
             return "C02:ambiguous-multilocus-weight" if len(rs) > 1 and all(t(r) == "ambiguous" and nf(r) == 1 for r in rs) else None
         ctx.corr_report("pipeline_read_contribution", mism, viol, keyfn=key, what="a read contributes a total weight above 1 to a table (its tables were verified to be the per-record sums)")
-        ctx.rule("pipeline: IsoQuant on the bundled chr9 data for each --transcript_quantification strategy (crossed with a different --gene_quantification) alternating "
-                 "--normalization_method simple/usable_reads, and on a generated two-chromosome data set (threads 2, reads aligned to two loci, unmapped reads); every cell of "
-                 "gene_counts / transcript_counts / transcript_model_counts, the __ambiguous/__no_feature/__not_aligned lines and the TPM tables are recomputed inside Coq from "
-                 "read_assignments.tsv + corrected_reads.bed + the reference GTF (mono-exonic isoforms) + transcript_model_reads.tsv + transcript_models.gtf (counts_ok, stats_ok, tpm_ok); "
+        ctx.rule("pipeline: IsoQuant on the bundled chr9 data for each --transcript_quantification strategy (crossed with a different --gene_quantification, both directions) alternating "
+                 "--normalization_method simple/usable_reads, every second run with --read_group file_name; on a generated two-chromosome data set (threads 2, reads aligned to two loci, unmapped reads); "
+                 "on experiments made of SEVERAL BAM files (--bam a b c): a generated data set in 3 files with 4/2/0 unmapped records and the bundled alignments split into two files with 3/2 unmapped "
+                 "records (--read_group file_name, two groups); every cell of gene_counts / transcript_counts / transcript_model_counts, the __ambiguous/__no_feature/__not_aligned lines and "
+                 "the TPM tables are recomputed inside Coq from read_assignments.tsv + corrected_reads.bed + the reference GTF (mono-exonic isoforms) + transcript_model_reads.tsv + "
+                 "transcript_models.gtf (counts_ok, stats_ok, tpm_ok); __not_aligned is compared with the number of records carrying the unmapped flag counted by reading every record of every input BAM file; "
+                 "the grouped tables of the --read_group runs are recomputed in the same way, each with the strategy given for it (gene table: --gene_quantification, transcript and transcript-model "
+                 "tables: --transcript_quantification), and must partition the ungrouped ones (grouped_ok); "
                  "per read id the total contribution over all its records must not exceed 1 (non-trivial = a read with several records)")
         ctx.notes.append("pipeline level: all decisive comparisons (cells as rationals, tallies, TPM, per-read totals) are evaluated inside Coq; Python only parses files and interns names")
     finally:
@@ -225,10 +281,10 @@ def run(ctx):
     quick = ctx.tier == "quick"
     ctx.prepare("C02.v")
     ctx.rule("regenerated from the source on every run (tools/translate_extra.py -> coq/gen/Extra.v; bridged to the model by C02_weights_are_the_sources, C02_weight_tk_is_the_source, C02_enums_are_covered, C02_grouped_format_is_the_source): CountingStrategy members and its four predicates, COUNTING_STRATEGIES, CountingStrategyFlags.__init__, ReadWeightCounter.process_ambiguous / process_inconsistent (floats as exact rationals), GroupedOutputFormat with output_matrix / output_linear; ReadAssignmentType and its is_unique / is_inconsistent / is_unassigned sets come from coq/gen/Tables.v")
-    if not check_enums(ctx): return
-    strategy_and_weights(ctx)
-    unit_ungrouped(ctx, quick)
-    unit_raises(ctx, quick)
-    pipeline(ctx, quick)
+    section(ctx, "enums", check_enums, ctx)            # a changed enumeration is reported as broken; the sections below still run on the members the model knows
+    section(ctx, "strategy_and_weights", strategy_and_weights, ctx)
+    section(ctx, "unit_ungrouped", unit_ungrouped, ctx, quick)
+    section(ctx, "unit_raises", unit_raises, ctx, quick)
+    section(ctx, "pipeline", pipeline, ctx, quick)
     ctx.assume.append("float -> rational reconstruction of internal counter values (Fraction.limit_denominator(30000), accepted only within 1e-9): float summation error is outside the model")
     ctx.assume.append("feature and group names are interned order-preservingly (Python sorted() on names = the model's sortz on codes); names starting with '_' or '#' are not generated")
